@@ -3275,6 +3275,18 @@ impl<'a> Visitor<'a, '_, Error> for JSONValidator<'a> {
               n
             )),
           },
+          // a negative integer is smaller than (and different from) any uint
+          None if n.as_i64().is_some()
+            && matches!(
+              &self.state.ctrl,
+              Some(ControlOperator::NE)
+                | Some(ControlOperator::DEFAULT)
+                | Some(ControlOperator::LT)
+                | Some(ControlOperator::LE)
+            ) =>
+          {
+            None
+          }
           None => Some(format!("{} cannot be represented as a u64", n)),
         },
         Value::String(s) => match &self.state.ctrl {
